@@ -1516,3 +1516,5 @@ def _run(world: World, plan):
                                              sorted((e['rec']['what'], e['rec']['port']) for e in bf)])
 
 INFO['rule'] += ' Round-5 additions: a well-formed first frame on a fresh connection arriving in two parts with a pause of 0.5..45 s (plan field slowfirst); a distributed child that never reads while ServerSearchRequest frames of 30..60 kB are relayed to it, then its connection ends (child_stall).'
+
+INFO['rule'] += ' Round-6 additions: response futures with application-supplied callable matchers that fail on the message classes of the plan (raising_matcher).'
